@@ -138,10 +138,7 @@ func effectiveVar(def *ast.VariableDefinition, vars map[string]interface{}) (int
 		return gql.ToJSONValue(v), true
 	}
 	if def.DefaultValue != nil {
-		v, err := def.DefaultValue.Value(nil)
-		if err == nil {
-			return gql.ToJSONValue(v), true
-		}
+		return gql.ToJSONValue(gql.ConstValue(def.DefaultValue)), true
 	}
 	return nil, false
 }
